@@ -236,6 +236,22 @@ func runWatchCase(t *testing.T, o *Out, id, kind string, evs []watchEv, extIdx i
 				t.Fatal(err)
 			}
 		}
+		// requests looking namespaces up by name all the time (two tight loops): a reload must not
+		// leave any of them with an older version afterwards
+		for k := 0; k < 2; k++ {
+			wg.Add(1)
+			go func() {
+				defer wg.Done()
+				for {
+					select {
+					case <-stop:
+						return
+					default:
+					}
+					_ = nsStateByName(getNM())
+				}
+			}()
+		}
 		// sampler
 		wg.Add(1)
 		go func() {
